@@ -84,7 +84,7 @@ Fixpoint hist_ok (r : ref) (ops : list op) (states : list tree) : bool :=
   | o :: rest, (L (I oc :: st :: _)) :: srest =>
       let rr := r_apply o r in
       let r' := match rr with Ok r' => r' | _ => r end in
-      (outcome rr =? oc) && state_ok r' st && hist_ok r' rest srest
+      (outcome rr =? oc) && alt_ok o r && state_ok r' st && hist_ok r' rest srest
   | _, _ => false
   end.
 
